@@ -386,6 +386,8 @@ impl DB {
         };
         let maybe_immutable_memtable = db_fields_guard.maybe_immutable_memtable.clone();
         let current_version = db_fields_guard.version_set.get_current_version();
+        // Capture the memtable together with the rest of the read state while the lock is held
+        let memtable = self.memtable();
 
         // Unlock mutex while reading from memtable or files
         let mut maybe_seek_charge: Option<SeekChargeMetadata> = None;
@@ -397,7 +399,7 @@ impl DB {
                 let internal_key = InternalKey::new_for_seeking(key.to_vec(), snapshot);
 
                 // Check the memtable first
-                if let Ok(maybe_value) = self.memtable().get(&internal_key) {
+                if let Ok(maybe_value) = memtable.get(&internal_key) {
                     match maybe_value {
                         Some(value) => return Ok(Some(value.clone())),
                         None => {
